@@ -910,6 +910,8 @@ class Engine:
             v = args[0]
             t = type(v)
             if t is Slice:
+                if v.obj is not None and v.obj.tag == 'opaquestr':
+                    raise Unsupported('len of opaque bytes')
                 return v.len
             if t is bytes or t is SymStr:
                 return len(v)
@@ -1279,6 +1281,19 @@ class Engine:
         if ta is OpaqueStr or tb is OpaqueStr:
             if a is b:
                 return True
+            if ta is OpaqueStr and tb is OpaqueStr and a.tag == 'dec' and b.tag == 'dec' and a.parts[1:] == b.parts[1:]:
+                return self.val_eq(a.parts[0], b.parts[0])  # decimal rendering is injective
+            o, c = (a, b) if ta is OpaqueStr else (b, a)
+            if o.tag == 'dec' and type(c) is bytes:
+                # a decimal token equals a concrete text only if that text is the canonical decimal of some n
+                import re
+                if re.fullmatch(rb'-?(0|[1-9][0-9]*)', c) and c != b'-0':
+                    n = int(c)
+                    bits, signed = o.parts[1], o.parts[2]
+                    lo, hi = (-(1 << (bits - 1)), (1 << (bits - 1)) - 1) if signed else (0, (1 << bits) - 1)
+                    if lo <= n <= hi:
+                        return self.val_eq(o.parts[0], norm(n, bits, signed))
+                return False
             raise Unsupported('comparison of opaque strings')
         if ta is Ptr and tb is Ptr:
             return a == b
@@ -1374,6 +1389,15 @@ class Engine:
                 if self.branch(self.val_eq(ek, k)):
                     return ev, True
             return None, False
+        if is_sym(k) and z3.is_bv(k) and not m.sym and len(m.d) > 3:
+            # key pinned to one value by the path condition? then a direct lookup (2 queries instead of 2 per entry)
+            u = self.unique_value(k)
+            if u is not None:
+                for cand in (u, norm(u, k.size(), True)):
+                    e = m.d.get(cand)
+                    if e is not None:
+                        return e[1], True
+                return None, False
         for hk, (ek, ev) in list(m.d.items()):
             if self.branch(self.val_eq(ek, k)):
                 return ev, True
@@ -1381,6 +1405,18 @@ class Engine:
             if self.branch(self.val_eq(ek, k)):
                 return ev, True
         return None, False
+
+    def unique_value(self, x):
+        """the single value x can take under the path condition, or None"""
+        x = z3.simplify(x)
+        if z3.is_bv_value(x):
+            return x.as_long()
+        if self.check() != z3.sat:
+            return None
+        v = self.model().eval(x, model_completion=True).as_long()
+        if self.check(x != BV(v, x.size())) == z3.unsat:
+            return v
+        return None
 
     def map_delete(self, m, k):
         if m is None:
@@ -1746,6 +1782,8 @@ def h_convert(E, ins, x, y):
     if sk == 'basic' and dk == 'slice':
         # string -> []byte / []rune
         et = E.types[dt.elem].u
+        if et.bits == 8 and type(x) is OpaqueStr:
+            return Slice(E.new_obj([x], tag='opaquestr'), (), 0, 1, 1)
         if et.bits == 8:
             return E.make_slice_from(list(E.bytes_of(x)))
         if type(x) is bytes:
@@ -1753,6 +1791,8 @@ def h_convert(E, ins, x, y):
         raise Unsupported('[]rune(symbolic)')
     if sk == 'slice' and dk == 'basic':
         et = E.types[st.elem].u
+        if x.obj is not None and x.obj.tag == 'opaquestr':
+            return x.obj.v[0]
         el = E.slice_list(x)
         if et.bits == 8:
             return E.mkstr(el)
